@@ -56,6 +56,9 @@ type Ops struct {
 	Generator  func(group int) []byte
 	Scale      func(group int, p []byte, k *big.Int) ([]byte, error) // k·P, k may be negative or zero
 	IsInfinity func(group int, p []byte) bool
+	// AddTorsion: P+T with T≠0 of order dividing the cofactor (on the curve, outside the
+	// prime-order subgroup); ok=false when the group has cofactor 1.
+	AddTorsion func(group int, p []byte) ([]byte, bool)
 }
 
 // SetChallenge returns a copy of the contribution with its Challenge field replaced.
